@@ -8,7 +8,7 @@ use linfa::dataset::Pr;
 use linfa::prelude::*;
 use linfa_kernel::{Kernel, KernelInner, KernelMethod};
 use linfa_svm::Svm;
-use ndarray::{Array1, Array2};
+use ndarray::{s, Array1, Array2, ArrayView1, ArrayView2, Axis, ShapeBuilder};
 use serde::Deserialize;
 use std::sync::mpsc;
 use std::time::Duration;
@@ -59,6 +59,14 @@ struct Cfg {
     /// 0: every parameter set explicitly; 1: documented defaults (C = (1,1) / eps 1e-7 / no shrinking / linear kernel);
     /// 2: c_svr(c, None) (loss epsilon 0.1); 3: nu_svr(nu, None) (c = 1); 4: c_eps(c, eps); 5: nu_eps(nu, eps)
     variant: u8,
+    /// memory layouts of the records, the targets and the query batch (indices into LAYOUTS / TLAYOUTS / LAYOUTS)
+    lay_x: u8,
+    lay_y: u8,
+    lay_q: u8,
+    /// the records were scaled by 2^scale (kernel parameters, C / solver eps scaled so that the dual problem is the same);
+    /// kappa = factor by which the kernel values changed (1 Gaussian, s^2 linear, s^(2 degree) polynomial)
+    scale: i32,
+    kappa: f64,
 }
 
 #[derive(Clone, Debug)]
@@ -104,31 +112,123 @@ fn mirror<T: serde::Serialize>(m: &T) -> SvmMirror {
     bincode::deserialize(&bincode::serialize(m).unwrap()).unwrap()
 }
 
+// ---- memory layouts: the same logical data behind different strides ----
+/// 0 standard row-major (owned), 1 standard (view), 2 column-major (owned), 3 column-major (view),
+/// 4 reversed rows (view, negative stride), 5 reversed rows (`to_owned()` of that view: keeps the negative stride),
+/// 6 reversed columns (view), 7 reversed columns (owned), 8 every second row / column of a (2n, 2d) array whose
+/// other entries are NaN (view), 9 the same as an owned non-contiguous array (`slice_move`)
+const LAYOUTS: [&str; 10] = ["std", "std_view", "colmajor", "colmajor_view", "revrows_view", "revrows_owned",
+    "revcols_view", "revcols_owned", "strided_view", "strided_owned"];
+/// targets: 0 standard (owned), 1 standard (view), 2 reversed (view), 3 reversed (owned, `invert_axis`),
+/// 4 every second element of a longer array (view), 5 the same owned (`slice_move`)
+const TLAYOUTS: [&str; 6] = ["std", "std_view", "rev_view", "rev_owned", "strided_view", "strided_owned"];
+
+struct Lay2 { back: Array2<f64>, lay: u8 }
+impl Lay2 {
+    fn new(rows: &[Vec<f64>], lay: u8) -> Lay2 {
+        let n = rows.len();
+        let d = if n == 0 { 0 } else { rows[0].len() };
+        let back = match lay {
+            0 | 1 => arr(rows),
+            2 | 3 => {
+                let mut v = Vec::with_capacity(n * d);
+                for j in 0..d { for i in 0..n { v.push(rows[i][j]); } }
+                Array2::from_shape_vec((n, d).f(), v).unwrap()
+            }
+            4 | 5 => arr(&rows.iter().rev().cloned().collect::<Vec<_>>()),
+            6 | 7 => arr(&rows.iter().map(|r| r.iter().rev().cloned().collect::<Vec<f64>>()).collect::<Vec<_>>()),
+            _ => {
+                let mut a = Array2::from_elem((2 * n, 2 * d), f64::NAN);
+                for i in 0..n { for j in 0..d { a[(2 * i, 2 * j)] = rows[i][j]; } }
+                a
+            }
+        };
+        Lay2 { back, lay }
+    }
+    fn is_view(&self) -> bool { matches!(self.lay, 1 | 3 | 4 | 6 | 8) }
+    fn view(&self) -> ArrayView2<'_, f64> {
+        match self.lay {
+            0..=3 => self.back.view(),
+            4 | 5 => self.back.slice(s![..;-1, ..]),
+            6 | 7 => self.back.slice(s![.., ..;-1]),
+            _ => self.back.slice(s![..;2, ..;2]),
+        }
+    }
+    fn owned(&self) -> Array2<f64> {
+        match self.lay {
+            0..=3 => self.back.clone(),
+            8 | 9 => self.back.clone().slice_move(s![..;2, ..;2]),
+            _ => self.view().to_owned(),
+        }
+    }
+}
+struct Lay1<T: Clone> { back: Array1<T>, lay: u8 }
+impl<T: Clone> Lay1<T> {
+    fn new(xs: &[T], lay: u8) -> Lay1<T> {
+        let back = match lay {
+            0 | 1 => Array1::from(xs.to_vec()),
+            2 | 3 => Array1::from(xs.iter().rev().cloned().collect::<Vec<T>>()),
+            // the skipped entries repeat the neighbour (bool has no NaN); a reader in memory order sees the wrong length / pairing
+            _ => Array1::from(xs.iter().flat_map(|x| [x.clone(), x.clone()]).collect::<Vec<T>>()),
+        };
+        Lay1 { back, lay }
+    }
+    fn is_view(&self) -> bool { matches!(self.lay, 1 | 2 | 4) }
+    fn view(&self) -> ArrayView1<'_, T> {
+        match self.lay { 0 | 1 => self.back.view(), 2 | 3 => self.back.slice(s![..;-1]), _ => self.back.slice(s![..;2]) }
+    }
+    fn owned(&self) -> Array1<T> {
+        match self.lay {
+            0 | 1 => self.back.clone(),
+            2 | 3 => { let mut a = self.back.clone(); a.invert_axis(Axis(0)); a }
+            _ => self.back.clone().slice_move(s![..;2]),
+        }
+    }
+}
+
+/// fit through the `Array2` / `Array1` implementation or through the `ArrayView2` / `ArrayView1` one, whichever the
+/// layout of the records asks for (the targets follow: an owned dataset gets owned targets in their own layout)
+macro_rules! fit_in_layout {
+    ($p:expr, $xs:expr, $ys:expr) => {
+        if $xs.is_view() { $p.fit(&DatasetBase::new($xs.view(), $ys.view())) } else { $p.fit(&DatasetBase::new($xs.owned(), $ys.owned())) }
+    };
+}
+macro_rules! predict_in_layout {
+    ($m:expr, $qs:expr) => {
+        if $qs.is_view() { $m.predict(&$qs.view()) } else { $m.predict(&$qs.owned()) }
+    };
+}
+
 fn run_fit(c: &Cfg) -> Result<FitOut, String> {
-    let x = arr(&c.x);
-    let q = arr(&c.q);
+    let xs = Lay2::new(&c.x, c.lay_x);
+    let qs = Lay2::new(&c.q, c.lay_q);
+    // rows of the layout under test (a row of a column-major or strided matrix is itself a strided vector)
+    let xv = xs.view();
+    let q = qs.view();
     match c.kind {
         Kind::CSvc | Kind::NuSvc => {
-            let ds = Dataset::new(x, Array1::from(c.yb.clone()));
+            let ys = Lay1::new(&c.yb, c.lay_y);
+            let ystd = Array1::from(c.yb.clone());
             let mut fallback = false;
             if c.platt {
                 let p = with_kernel(Svm::<f64, Pr>::params(), c.ker).eps(c.eps).shrinking(c.shrink);
                 let p = if c.kind == Kind::CSvc { p.pos_neg_weights(c.par1, c.par2) } else { p.nu_weight(c.par1) };
-                match p.fit(&ds) {
+                match fit_in_layout!(p, xs, ys) {
                     Ok(model) => {
                         let ws: Vec<f64> = q.outer_iter().map(|r| model.weighted_sum(&r)).collect();
-                        let pr: Vec<f32> = model.predict(&q).iter().map(|p| **p).collect();
+                        let pr: Vec<f32> = predict_in_layout!(model, qs).iter().map(|p| **p).collect();
                         let m = mirror(&model);
                         let lab = ws.iter().map(|w| w - m.rho >= 0.0).collect();
                         let mut diff = vec![];
                         for (k, r) in q.outer_iter().enumerate() {
-                            let one: Pr = model.predict(r.to_owned());
-                            if (*one).to_bits() != pr[k].to_bits() { diff.push(format!("single-sample probability of query {} differs from the batch prediction", k)); }
+                            let one: Pr = model.predict(r);
+                            let own: Pr = model.predict(r.to_owned());
+                            if (*one).to_bits() != pr[k].to_bits() || (*own).to_bits() != pr[k].to_bits() { diff.push(format!("single-sample probability of query {} differs from the batch prediction", k)); }
                         }
                         // the calibration is Platt's Newton method on the decision values of the training samples
-                        let train: Array1<f64> = ds.records().outer_iter().map(|r| model.weighted_sum(&r) - m.rho).collect();
+                        let train: Array1<f64> = xv.outer_iter().map(|r| model.weighted_sum(&r) - m.rho).collect();
                         let pp: PlattParams<f64, ()> = PlattParams::default();
-                        match platt_newton_method(train.view(), ds.targets().view(), pp.check_ref().unwrap()) {
+                        match platt_newton_method(train.view(), ystd.view(), pp.check_ref().unwrap()) {
                             Ok((a, b)) => {
                                 if m.probability_coeffs.map(|(x, y)| (x.to_bits(), y.to_bits())) != Some((a.to_bits(), b.to_bits())) {
                                     diff.push("Platt coefficients are not those of the training decision values weighted_sum - rho".into());
@@ -136,7 +236,7 @@ fn run_fit(c: &Cfg) -> Result<FitOut, String> {
                             }
                             Err(_) => diff.push("Platt calibration fails on the training decision values although the fit succeeded".into()),
                         }
-                        let tws: Vec<f64> = ds.records().outer_iter().map(|r| model.weighted_sum(&r)).collect();
+                        let tws: Vec<f64> = xv.outer_iter().map(|r| model.weighted_sum(&r)).collect();
                         return Ok(FitOut { nsupport: model.nsupport(), ws, dec: vec![], lab, pr, tws, tout: vec![], tlab: vec![], m, platt_fallback: false, diff });
                     }
                     Err(linfa_svm::SvmError::Platt(_)) => fallback = true,
@@ -149,29 +249,34 @@ fn run_fit(c: &Cfg) -> Result<FitOut, String> {
                 let p = with_kernel(Svm::<f64, bool>::params(), c.ker).eps(c.eps).shrinking(c.shrink);
                 if c.kind == Kind::CSvc { p.pos_neg_weights(c.par1, c.par2) } else { p.nu_weight(c.par1) }
             };
-            let model = p.fit(&ds).map_err(|e| format!("ERR: {}", e))?;
+            let model = fit_in_layout!(p, xs, ys).map_err(|e| format!("ERR: {}", e))?;
             let ws: Vec<f64> = q.outer_iter().map(|r| model.weighted_sum(&r)).collect();
-            let lab: Vec<bool> = model.predict(&q).to_vec();
+            let lab: Vec<bool> = predict_in_layout!(model, qs).to_vec();
             let mut diff = vec![];
             for (k, r) in q.outer_iter().enumerate() {
-                if model.predict(r.to_owned()) != lab[k] { diff.push(format!("single-sample label of query {} differs from the batch prediction", k)); }
+                if model.predict(r) != lab[k] || model.predict(r.to_owned()) != lab[k] { diff.push(format!("single-sample label of query {} differs from the batch prediction", k)); }
             }
-            let tws: Vec<f64> = ds.records().outer_iter().map(|r| model.weighted_sum(&r)).collect();
-            let tlab: Vec<bool> = model.predict(ds.records()).to_vec();
+            let tws: Vec<f64> = xv.outer_iter().map(|r| model.weighted_sum(&r)).collect();
+            let tlab: Vec<bool> = predict_in_layout!(model, xs).to_vec();
             Ok(FitOut { m: mirror(&model), nsupport: model.nsupport(), ws, dec: vec![], lab, pr: vec![], tws, tout: vec![], tlab, platt_fallback: fallback, diff })
         }
         Kind::OneClass => {
-            let ds = Dataset::from(x);
             let p = with_kernel(Svm::<f64, Pr>::params(), c.ker).eps(c.eps).shrinking(c.shrink).nu_weight(c.par1);
-            let model = p.fit(&ds).map_err(|e| format!("ERR: {}", e))?;
+            let unit = Array1::<()>::from_elem(c.x.len(), ());
+            let model = if xs.is_view() { p.fit(&DatasetBase::new(xs.view(), unit.view())) } else { p.fit(&Dataset::from(xs.owned())) }
+                .map_err(|e| format!("ERR: {}", e))?;
             let ws: Vec<f64> = q.outer_iter().map(|r| model.weighted_sum(&r)).collect();
-            let lab: Vec<bool> = model.predict(&q).to_vec();
-            let tws: Vec<f64> = ds.records().outer_iter().map(|r| model.weighted_sum(&r)).collect();
-            let tlab: Vec<bool> = model.predict(ds.records()).to_vec();
-            Ok(FitOut { m: mirror(&model), nsupport: model.nsupport(), ws, dec: vec![], lab, pr: vec![], tws, tout: vec![], tlab, platt_fallback: false, diff: vec![] })
+            let lab: Vec<bool> = predict_in_layout!(model, qs).to_vec();
+            let mut diff = vec![];
+            for (k, r) in q.outer_iter().enumerate() {
+                if model.predict(r) != lab[k] { diff.push(format!("single-sample label of query {} differs from the batch prediction", k)); }
+            }
+            let tws: Vec<f64> = xv.outer_iter().map(|r| model.weighted_sum(&r)).collect();
+            let tlab: Vec<bool> = predict_in_layout!(model, xs).to_vec();
+            Ok(FitOut { m: mirror(&model), nsupport: model.nsupport(), ws, dec: vec![], lab, pr: vec![], tws, tout: vec![], tlab, platt_fallback: false, diff })
         }
         Kind::EpsSvr | Kind::NuSvr => {
-            let ds = Dataset::new(x, Array1::from(c.yr.clone()));
+            let ys = Lay1::new(&c.yr, c.lay_y);
             let p = with_kernel(Svm::<f64, f64>::params(), c.ker).shrinking(c.shrink);
             #[allow(deprecated)]
             let p = match c.variant {
@@ -181,17 +286,17 @@ fn run_fit(c: &Cfg) -> Result<FitOut, String> {
                 5 => p.nu_eps(c.par1, c.eps),
                 _ => if c.kind == Kind::EpsSvr { p.eps(c.eps).c_svr(c.par1, Some(c.par2)) } else { p.eps(c.eps).nu_svr(c.par1, Some(c.par2)) },
             };
-            let model = p.fit(&ds).map_err(|e| format!("ERR: {}", e))?;
+            let model = fit_in_layout!(p, xs, ys).map_err(|e| format!("ERR: {}", e))?;
             let ws: Vec<f64> = q.outer_iter().map(|r| model.weighted_sum(&r)).collect();
-            let dec: Vec<f64> = model.predict(&q).to_vec();
+            let dec: Vec<f64> = predict_in_layout!(model, qs).to_vec();
             let mut diff = vec![];
             for (k, r) in q.outer_iter().enumerate() {
                 if model.predict(r.to_owned()).to_bits() != dec[k].to_bits() || model.predict(r).to_bits() != dec[k].to_bits() {
                     diff.push(format!("single-sample prediction of query {} differs from the batch prediction", k));
                 }
             }
-            let tws: Vec<f64> = ds.records().outer_iter().map(|r| model.weighted_sum(&r)).collect();
-            let tout: Vec<f64> = model.predict(ds.records()).to_vec();
+            let tws: Vec<f64> = xv.outer_iter().map(|r| model.weighted_sum(&r)).collect();
+            let tout: Vec<f64> = predict_in_layout!(model, xs).to_vec();
             Ok(FitOut { m: mirror(&model), nsupport: model.nsupport(), ws, dec, lab: vec![], pr: vec![], tws, tout, tlab: vec![], platt_fallback: false, diff })
         }
     }
@@ -377,7 +482,40 @@ fn gen_cfg(rng: &mut Sm64, nmax: usize, force_kind: Option<Kind>) -> (Cfg, u64) 
             _ => q.push((0..d).map(|_| 3.0 * rng.gauss()).collect()),
         }
     }
-    (Cfg { kind, ker, x, yb, yr, par1, par2, eps, shrink, platt, q, variant: 0 }, fam)
+    (Cfg { kind, ker, x, yb, yr, par1, par2, eps, shrink, platt, q, variant: 0, lay_x: 0, lay_y: 0, lay_q: 0, scale: 0, kappa: 1.0 }, fam)
+}
+
+/// scale the records and queries by 2^k and every hyper-parameter that carries units so that the dual problem is the
+/// same one: Gaussian eps * s^2 (kernel values unchanged), polynomial constant * s^2 (kernel values * s^(2 degree)),
+/// linear (kernel values * s^2); with kappa the factor of the kernel values: C / kappa (C-SVC, both regressions: the
+/// coefficients scale by 1 / kappa, the decision values stay), solver eps * kappa (nu-SVC, one-class: the box [0, 1]
+/// stays, the gradients scale by kappa).  All factors are powers of two: the scaling is exact.
+fn apply_scale(c: &mut Cfg, k: i32) {
+    if k == 0 { return; }
+    let s = 2f64.powi(k);
+    let s2 = s * s;
+    let kappa = match c.ker {
+        Ker::Linear => s2,
+        Ker::Gauss(e) => { c.ker = Ker::Gauss(e * s2); 1.0 }
+        Ker::Poly(cc, d) => { c.ker = Ker::Poly(cc * s2, d); s2.powi(d as i32) }
+    };
+    for r in c.x.iter_mut().chain(c.q.iter_mut()) { for v in r.iter_mut() { *v *= s; } }
+    match c.kind {
+        Kind::CSvc => { c.par1 /= kappa; c.par2 /= kappa; }
+        Kind::NuSvc | Kind::OneClass => { c.eps *= kappa; }
+        Kind::EpsSvr => { c.par1 /= kappa; }
+        Kind::NuSvr => { c.par2 /= kappa; }
+    }
+    c.scale = k;
+    c.kappa = kappa;
+}
+
+/// rotate memory layouts and scales over the cases of a stream (k = running index within the stream)
+fn rotate(c: &mut Cfg, k: u64) {
+    c.lay_x = (k % 10) as u8;
+    c.lay_q = ((7 * k + 3) % 10) as u8;
+    c.lay_y = if k % 9 == 4 { 2 + ((k / 9) % 4) as u8 } else { (k % 2) as u8 };
+    apply_scale(c, [0, -40, 0, -20, 0, 0, 20, 0, 40, 0][((k / 3) % 10) as usize]);
 }
 
 fn cvecb(xs: &[bool]) -> String { clist(xs, |b| cbool(*b).to_string()) }
@@ -393,6 +531,18 @@ fn emit(out: &mut Out, id: u64, c: &Cfg, fam: &str, stream: &str, thorough: bool
     let mut tags: Vec<String> = vec![format!("kind_{}", kname), format!("kernel_{}", kern),
         (if c.shrink { "shrinking_true" } else { "shrinking_false" }).to_string(), format!("family_{}", fam), format!("stream_{}", stream)];
     if c.platt { tags.push("platt".into()); }
+    let has_targets = c.kind != Kind::OneClass;
+    let scale_name = if c.scale == 0 { "scale_1".to_string() } else { format!("scale_2p{}", c.scale) };
+    for t in [format!("layout_x_{}", LAYOUTS[c.lay_x as usize]), format!("layout_q_{}", LAYOUTS[c.lay_q as usize]), scale_name] {
+        out.bump(&t);
+        tags.push(t);
+    }
+    if has_targets {
+        let t = format!("layout_y_{}", TLAYOUTS[c.lay_y as usize]);
+        out.bump(&t);
+        tags.push(t);
+        if c.lay_y >= 2 { tags.push("targets_noncontiguous".into()); out.bump("targets_noncontiguous"); }
+    }
     {
         // input classes in which every coefficient of a class has to sit at its upper bound
         let npos = c.yb.iter().filter(|b| **b).count();
@@ -407,9 +557,18 @@ fn emit(out: &mut Out, id: u64, c: &Cfg, fam: &str, stream: &str, thorough: bool
             tags.push("box_bound_below_sv_threshold".into()); out.bump("box_bound_below_sv_threshold");
         }
     }
+    {
+        // the solver replaces a non-positive curvature K_ii + K_jj - 2 K_ij (identical samples; in regression also the
+        // pair alpha_i / alpha*_i of one sample) by the ABSOLUTE constant 1e-10: input class in which that constant
+        // exceeds every kernel value (largest diagonal entry below 1e-10)
+        let kdiag = c.x.iter().map(|r| kapply(c.ker, karg(c.ker, r, r)).abs()).fold(0.0f64, f64::max);
+        let dup = matches!(c.kind, Kind::EpsSvr | Kind::NuSvr) || (0..n).any(|i| (0..i).any(|j| c.x[i] == c.x[j]));
+        if dup && kdiag < 1e-10 { tags.push("curvature_guard_exceeds_kernel_values".into()); out.bump("curvature_guard_exceeds_kernel_values"); }
+    }
     let desc = format!(
-        "{{\"kind\": {}, \"kernel\": {}, \"kernel_params\": {}, \"n\": {}, \"d\": {}, \"family\": {}, \"stream\": {}, \"par1\": {:e}, \"par2\": {:e}, \"eps\": {:e}, \"shrinking\": {}, \"platt\": {}, \"X_first_row\": {:?}}}",
-        jstr(kname), jstr(kern), jstr(&format!("{:?}", c.ker)), n, c.x[0].len(), jstr(fam), jstr(stream), c.par1, c.par2, c.eps, c.shrink, c.platt, c.x[0]);
+        "{{\"kind\": {}, \"kernel\": {}, \"kernel_params\": {}, \"n\": {}, \"d\": {}, \"family\": {}, \"stream\": {}, \"par1\": {:e}, \"par2\": {:e}, \"eps\": {:e}, \"shrinking\": {}, \"platt\": {}, \"layout_records\": {}, \"layout_targets\": {}, \"layout_queries\": {}, \"records_scaled_by_2_to\": {}, \"X_first_row\": {:?}}}",
+        jstr(kname), jstr(kern), jstr(&format!("{:?}", c.ker)), n, c.x[0].len(), jstr(fam), jstr(stream), c.par1, c.par2, c.eps, c.shrink, c.platt,
+        jstr(LAYOUTS[c.lay_x as usize]), jstr(if has_targets { TLAYOUTS[c.lay_y as usize] } else { "none" }), jstr(LAYOUTS[c.lay_q as usize]), c.scale, c.x[0]);
     out.bump(&format!("kind_{}", kname));
     out.bump(&format!("kernel_{}", kern));
     out.bump(if c.shrink { "shrinking_true" } else { "shrinking_false" });
@@ -430,6 +589,22 @@ fn emit(out: &mut Out, id: u64, c: &Cfg, fam: &str, stream: &str, thorough: bool
     let mut kbad = None;
     for i in 0..n { for j in 0..n { if kapply(c.ker, ka[i][j]).to_bits() != kmat[i][j].to_bits() { kbad = Some((i, j)); } } }
     for (qi, row) in qk.iter().enumerate() { for j in 0..n { if kapply(c.ker, qa[qi][j]).to_bits() != row[j].to_bits() { kbad = Some((qi, j)); } } }
+    // Rust-side oracle: kernel construction and KernelMethod::distance see the LOGICAL data, whatever the memory layout
+    {
+        let xl = Lay2::new(&c.x, c.lay_x);
+        let ql = Lay2::new(&c.q, c.lay_q);
+        let kv = if xl.is_view() { Kernel::params().method(kmethod(c.ker)).transform(xl.view()) } else { Kernel::params().method(kmethod(c.ker)).transform(&xl.owned()) };
+        let kvm: Vec<Vec<f64>> = match &kv.inner { KernelInner::Dense(a) => rows_of(&a.view()), _ => unreachable!() };
+        let same = |a: &Vec<Vec<f64>>, b: &Vec<Vec<f64>>| a.len() == b.len() && a.iter().zip(b).all(|(r, t)| r.len() == t.len() && r.iter().zip(t).all(|(u, v)| u.to_bits() == v.to_bits()));
+        if !same(&kvm, &kmat) {
+            out.rust_fail(id, 2048, &tagrefs, &format!("the kernel matrix built from the records in layout {} differs from the one built from the same records in standard layout", LAYOUTS[c.lay_x as usize]), &desc);
+        }
+        let (xv, qv) = (xl.view(), ql.view());
+        let qkv: Vec<Vec<f64>> = qv.outer_iter().map(|q| xv.outer_iter().map(|xj| km.distance(xj, q)).collect()).collect();
+        if !same(&qkv, &qk) {
+            out.rust_fail(id, 2048, &tagrefs, &format!("KernelMethod::distance on rows of records in layout {} / queries in layout {} differs from its value on the same vectors in standard layout", LAYOUTS[c.lay_x as usize], LAYOUTS[c.lay_q as usize]), &desc);
+        }
+    }
     if let Some((i, j)) = kbad {
         out.rust_fail(id, 2048, &tagrefs, &format!("kernel value at ({}, {}) is not exp/powf/identity of the documented argument", i, j), &desc);
     }
@@ -453,7 +628,16 @@ fn emit(out: &mut Out, id: u64, c: &Cfg, fam: &str, stream: &str, thorough: bool
         if let Some(r) = f.m.r {
             // nu-SVC: the margin multiplier r is zero up to rounding (or infinite): the data is not separable at level nu
             let kmax0 = kmat.iter().flatten().fold(0.0f64, |m, a| m.max(a.abs()));
-            if c.kind == Kind::NuSvc && !(r > 1e-9 * (1.0 + kmax0) && r.is_finite()) { tags.push("nusvc_margin_zero".into()); out.bump("nusvc_margin_zero"); }
+            if c.kind == Kind::NuSvc && !(r > 1e-9 * (c.kappa + kmax0) && r.is_finite()) { tags.push("nusvc_margin_zero".into()); out.bump("nusvc_margin_zero"); }
+            // nu-SVC, non-linear kernel: the solver selects the stored support vectors by |alpha_i| > 100 eps_machine BEFORE the
+            // coefficients are divided by r, weighted_sum filters the published alpha_i / r by the same absolute threshold:
+            // the class in which the two selections differ for some sample (decidable from the published alpha and r)
+            else if c.kind == Kind::NuSvc && c.ker != Ker::Linear {
+                let thr = 100.0 * f64::EPSILON;
+                if f.m.alpha.iter().any(|a| (a.abs() > thr) != ((a * r).abs() > thr)) {
+                    tags.push("nusvc_sv_threshold_straddles_r".into()); out.bump("nusvc_sv_threshold_straddles_r");
+                }
+            }
         }
     }
     let tagrefs: Vec<&str> = tags.iter().map(|s| s.as_str()).collect();
@@ -462,7 +646,10 @@ fn emit(out: &mut Out, id: u64, c: &Cfg, fam: &str, stream: &str, thorough: bool
             let is_panic = e.starts_with("PANIC");
             out.bump(if is_panic { "outcome_panic" } else if e.starts_with("TIMEOUT") { "outcome_timeout" } else { "outcome_error" });
             out.rust_fail(id, 512, &tagrefs, &format!("fit did not produce a model: {}", e), &desc);
-            if is_panic && replay_ok {
+            if is_panic && has_targets && c.lay_y >= 2 {
+                // the fit reads its targets through `as_slice().unwrap()`: nothing of the solver ran
+                out.rust_eval(&desc, None);
+            } else if is_panic && replay_ok {
                 // the model of the solver must panic as well
                 let coq = format!("{}c_replay := true; {}c_panic := true; c_alpha := []; c_rho := 0%float; c_r := None; c_obj := 0%float; c_iter := {}; c_w := []; c_sv := []; c_nsupport := 0%N; {}c_ws := []; c_dec := []; c_lab := []; c_pr := []; c_tolk := 0%float; c_toleq := 0%float; c_told := 0%float; c_tolpsd := 0%float; c_tws := []; c_tout := []; c_tlab := []; c_L := [] |}}",
                     head, kpart, cn(40 * n as u64 + 2000), qpart);
@@ -486,12 +673,21 @@ fn emit(out: &mut Out, id: u64, c: &Cfg, fam: &str, stream: &str, thorough: bool
             let asum: f64 = f.m.alpha.iter().map(|a| a.abs()).sum();
             let kmax = kmat.iter().flatten().fold(0.0f64, |m, a| m.max(a.abs()));
             let ymax = c.yr.iter().fold(0.0f64, |m, a| m.max(a.abs()));
-            let scale = 1.0 + asum * kmax + f.m.rho.abs() + if matches!(c.kind, Kind::EpsSvr | Kind::NuSvr) { ymax } else { 0.0 };
-            let tolk = 2.0 * c.eps + scale * 2f64.powi(-36);
+            // the unit the conditions are compared with: the margin 1 (classification), the targets (regression: they are
+            // not rescaled), nothing for one-class (its decision values scale with the kernel, the allowance is purely relative)
+            let unit = if c.kind == Kind::OneClass { 0.0 } else { 1.0 };
+            let scale = unit + asum * kmax + f.m.rho.abs() + if matches!(c.kind, Kind::EpsSvr | Kind::NuSvr) { ymax } else { 0.0 };
+            // nu-SVC: the oracle divides the tolerance by the published r (the solver's eps lives in the unscaled dual)
+            let rmul = match (c.kind, f.m.r) { (Kind::NuSvc, Some(r)) if r.is_finite() && r > 0.0 => r, _ => 1.0 };
+            let tolk = 2.0 * c.eps + scale * 2f64.powi(-36) * rmul;
             let toleq = (amax + asum) * 2f64.powi(-40) * (1.0 + (f.m.iterations as f64).sqrt()) + 1e-300;
             let qkmax = qk.iter().flatten().fold(0.0f64, |m, a| m.max(a.abs()));
             let qkmax = qkmax.max(kmax);   // the decision values of the training samples are judged as well
-            let told = (1.0 + asum * qkmax + f.m.rho.abs()) * 2f64.powi(-36) + (n as f64) * 100.0 * f64::EPSILON * qkmax;
+            let told = (unit + asum * qkmax + f.m.rho.abs()) * 2f64.powi(-36) + (n as f64) * 100.0 * f64::EPSILON * qkmax;
+            // coefficients at or below the documented absolute numerical-zero threshold 100 * f64::EPSILON
+            let below = f.m.alpha.iter().filter(|a| **a != 0.0 && a.abs() <= 100.0 * f64::EPSILON).count();
+            if below > 0 { out.bump("some_nonzero_coefficients_below_sv_threshold"); }
+            if below > 0 && f.m.alpha.iter().all(|a| a.abs() <= 100.0 * f64::EPSILON) { out.bump("all_coefficients_below_sv_threshold"); }
             // rounding of the kernel values perturbs the spectrum by at most n * max|K| * a few ulps
             let tolpsd = (n as f64) * kmax * 2f64.powi(-45);
             // measured slack (float arithmetic, for the evidence only)
@@ -564,7 +760,7 @@ fn main() {
                     let x: Vec<Vec<f64>> = (0..n).map(|i| vec![pts[i]]).collect();
                     let yb: Vec<bool> = (0..n).map(|i| mask >> i & 1 == 1).collect();
                     let c = Cfg { kind: Kind::CSvc, ker: Ker::Linear, x: x.clone(), yb, yr: vec![0.0; n], par1: *cc, par2: if ci == 0 { 0.5 } else { 1.0 },
-                                  eps: 1e-5, shrink: mask % 2 == 0, platt: false, q: vec![vec![0.25], vec![-3.0], vec![pts[0]]], variant: 0 };
+                                  eps: 1e-5, shrink: mask % 2 == 0, platt: false, q: vec![vec![0.25], vec![-3.0], vec![pts[0]]], variant: 0, lay_x: 0, lay_y: 0, lay_q: 0, scale: 0, kappa: 1.0 };
                     emit(&mut out, id, &c, "line", "small", thorough, &mut max_slack_ratio);
                     id += 1;
                 }
@@ -581,7 +777,7 @@ fn main() {
         let yb: Vec<bool> = (0..n).map(|i| i % 2 == 0).collect();
         let ker = match k % 3 { 0 => Ker::Linear, 1 => Ker::Gauss(2.0), _ => Ker::Poly(1.0, 2.0) };
         let c = Cfg { kind: Kind::CSvc, ker, x, yb, yr: vec![0.0; n], par1: 1.5, par2: 1.5, eps: 1e-5, shrink: k >= 3, platt: false,
-                      q: vec![p.clone(), p.iter().map(|v| v + 1.0).collect(), vec![0.0; d]], variant: 0 };
+                      q: vec![p.clone(), p.iter().map(|v| v + 1.0).collect(), vec![0.0; d]], variant: 0, lay_x: 0, lay_y: 0, lay_q: 0, scale: 0, kappa: 1.0 };
         emit(&mut out, id, &c, "identical", "ties", thorough, &mut max_slack_ratio);
         id += 1;
     }
@@ -637,7 +833,8 @@ fn main() {
         let eps = if slow || large { [1e-3, 1e-4][k as usize % 2] } else { [0.3, 0.1, 0.03, 0.01][(k / 4) as usize % 4] };
         let mut x = x;
         if let Ker::Poly(_, _) = ker { for row in x.iter_mut() { for v in row.iter_mut() { *v *= 0.5; } } }
-        let c = Cfg { kind, ker, x, yb, yr, par1, par2, eps, shrink: true, platt: false, q, variant: 0 };
+        let mut c = Cfg { kind, ker, x, yb, yr, par1, par2, eps, shrink: true, platt: false, q, variant: 0, lay_x: 0, lay_y: 0, lay_q: 0, scale: 0, kappa: 1.0 };
+        rotate(&mut c, k + 5);
         emit(&mut out, id, &c, if k % 2 == 0 { "1" } else { "2" }, "shrink", thorough, &mut max_slack_ratio);
         id += 1;
     }
@@ -681,7 +878,8 @@ fn main() {
         // size classes: most cases small enough for the bit-exact replay, some larger ones for the oracle only
         let big = r.chance(if thorough { 0.06 } else { 0.06 });
         let nmax = if big { if thorough { 250 } else { 120 } } else { if thorough { 60 } else { 36 } };
-        let (c, fam) = gen_cfg(&mut r, nmax, None);
+        let (mut c, fam) = gen_cfg(&mut r, nmax, None);
+        rotate(&mut c, id - 1000);
         emit(&mut out, id, &c, &format!("{}", fam), "random", thorough, &mut max_slack_ratio);
         id += 1;
     }
@@ -701,6 +899,7 @@ fn main() {
         // queries: training samples (the one-class decision on them is what the labels publish) and fresh points
         c.q = vec![c.x[0].clone(), c.x[c.x.len() / 2].clone(), c.x[c.x.len() - 1].clone(),
                    (0..c.x[0].len()).map(|_| 2.0 * r.gauss()).collect(), vec![0.0; c.x[0].len()]];
+        rotate(&mut c, k + 2);
         emit(&mut out, id, &c, &format!("{}", fam), "poly1", thorough, &mut max_slack_ratio);
         id += 1;
     }
